@@ -86,9 +86,69 @@ def _key_pool(rng, coll):
     return ks
 
 
+def _large(rng, tier):
+    """A history that grows to 65..140 live elements (leaf capacity 128 / 256, more than 64 combine points, so
+    the evaluation candidates span several 64-bit bitmap words) and then ticks values, adds and removes a few
+    elements per cycle all over the dense range.  More than 60 values cannot be distinct powers of two: values
+    are distinct small integers (< 2^20), the oracle checks the exact sum and the model the exact operand log."""
+    coll = rng.choice([0, 0, 1])
+    comb = rng.choice([0, 1, 1, 2])
+    has_zero = 1 if rng.random() < 0.4 else 0
+    target = rng.choice([65, 66, 70, 80, 96, 100, 129, 140]) if tier != "quick" else rng.choice([65, 66, 72, 90, 130])
+    nkeys = target + rng.randint(2, 12)
+    keys = list(range(nkeys)) if coll == 1 else rng.sample(range(-20, 400), nkeys)
+    pool = rng.sample(range(1, 1 << 20), 4000)
+    live, lines = {}, []
+    c = 0
+    dead = list(keys)
+    rng.shuffle(dead)
+    # growth in a few bursts (crossing 64 -> 128 leaves mid-history)
+    while len(live) < target:
+        n = min(target - len(live), rng.choice([7, 20, 33, 64, 70]))
+        for k in sorted(dead[:n]):
+            v = pool.pop()
+            lines.append([2, c, k, v])
+            live[k] = v
+        dead = dead[n:]
+        c += 1
+    # churn: sparse value ticks / a few adds / removes per cycle
+    for _ in range(rng.randint(3, 7) if tier == "quick" else rng.randint(4, 12)):
+        r = rng.random()
+        lk = list(live)
+        if r < 0.55 or coll == 1:
+            for k in sorted(rng.sample(lk, rng.randint(1, 3))):
+                v = pool.pop()
+                lines.append([2, c, k, v])
+                live[k] = v
+            if coll == 1 and dead and rng.random() < 0.4:
+                k = dead.pop()
+                v = pool.pop()
+                lines.append([2, c, k, v])
+                live[k] = v
+        elif r < 0.8:
+            for k in rng.sample(lk, rng.randint(1, 3)):
+                lines.append([3, c, k])
+                del live[k]
+            if rng.random() < 0.5 and live:
+                k = rng.choice(list(live))
+                v = pool.pop()
+                lines.append([2, c, k, v])
+                live[k] = v
+        else:
+            for k in sorted(dead[:rng.randint(1, 3)]):
+                v = pool.pop()
+                lines.append([2, c, k, v])
+                live[k] = v
+                dead.remove(k)
+        c += 1
+    return [[1, coll, comb, has_zero, ZERO if has_zero else 0, c]] + lines
+
+
 def gen(rng, tier, prop):
     if rng.random() < 0.03:
         return _malformed(rng)
+    if rng.random() < (0.04 if tier == "quick" else 0.02):
+        return _large(rng, tier)
     coll = rng.choice([0, 0, 0, 0, 0, 0, 0, 1, 1, 2])
     comb = rng.choice([0, 1, 1, 1, 2, 2])
     has_zero = 1 if rng.random() < 0.5 else 0
@@ -155,7 +215,7 @@ def _malformed(rng):
     if r < 0.3:
         return [[1, 0, 1, 0, 0, rng.choice([-1, 201, 5000])], [2, 0, 1, 1]]
     if r < 0.6:
-        return [[1, rng.choice([1, 2]), 1, 0, 0, 3], [2, 0, rng.choice([-1, 6, 41, 99]), 1], [2, 1, 0, 2]]
+        return [[1, rng.choice([1, 2]), 1, 0, 0, 3], [2, 0, rng.choice([-1, 6, 201, 999]), 1], [2, 1, 0, 2]]
     # duplicate lines, lines outside the cycle range, junk tags
     return [[1, 0, rng.choice([0, 1, 2]), rng.choice([0, 1]), ZERO, 3], [2, 0, 1, 1], [2, 0, 1, 2], [3, 1, 1], [3, 1, 1],
             [2, 7, 3, 4], [9, 9, 9], [3, 2, 44], [2, 2, 2, 8]]
@@ -268,10 +328,12 @@ def oracle(prop, case, out):
     h, states = script_states(case)
     if any(l and l[0] == 39 for l in out):
         bad = h["n"] < 0 or h["n"] > 200 or (h["coll"] != 0 and any(
-            l[0] == 2 and len(l) >= 4 and not (0 <= l[2] <= (40 if h["coll"] == 1 else FIXED - 1)) for l in case))
+            l[0] == 2 and len(l) >= 4 and not (0 <= l[2] <= (200 if h["coll"] == 1 else FIXED - 1)) for l in case))
         if not bad:
             fails.append(("error_line", str([l for l in out if l[0] == 39])))
         return fails
+    # beyond 60 elements the values are distinct small integers, not powers of two
+    pow2 = all(l[3] > 0 and (l[3] & (l[3] - 1)) == 0 for l in case if l[0] == 2 and len(l) >= 4)
     by_t = {}
     for l in out:
         if len(l) >= 2:
@@ -318,10 +380,13 @@ def oracle(prop, case, out):
                 fails.append(("too_many_evals", "t=%d %d combiner runs for %d live" % (t, len(e30), len(live))))
             for l in e30:
                 lhs, rhs = l[2], l[3]
-                if len(live) >= 2 and h["hz"] and ((lhs | rhs) & h["zero"]):
+                if len(live) >= 2 and h["hz"] and (((lhs | rhs) & h["zero"]) if pow2 else (lhs >= h["zero"] or rhs >= h["zero"])):
                     fails.append(("zero_operand", "t=%d zero is an operand with %d live: %d %d" % (t, len(live), lhs, rhs)))
                 allowed = mask | (h["zero"] if (h["hz"] and len(live) == 1) else 0)
-                if (lhs & rhs) or ((lhs | rhs) & ~allowed) or lhs == 0 or rhs == 0:
+                if not pow2:
+                    if lhs <= 0 or rhs <= 0 or lhs + rhs > mask + (h["zero"] if (h["hz"] and len(live) == 1) else 0):
+                        fails.append(("stale_operand", "t=%d operands %d %d exceed the sum of live values %d" % (t, lhs, rhs, mask)))
+                elif (lhs & rhs) or ((lhs | rhs) & ~allowed) or lhs == 0 or rhs == 0:
                     fails.append(("stale_operand", "t=%d operands %d %d are not disjoint sums of live values %d" % (t, lhs, rhs, mask)))
         # the statement itself: the current result is the fold over exactly the live values
         started = evaluated_once or _is_lifted_tsl(h)
@@ -347,7 +412,7 @@ def stats(case, out):
     mx = max(sizes + [0])
     st = {"cases": 1, "cycles": len(states), "sets": sum(1 for l in case if l[0] == 2), "removes": sum(1 for l in case if l[0] == 3),
           "with_zero": int(h["hz"]), "coll_%d" % h["coll"]: 1, "comb_%d" % h["comb"]: 1}
-    for b in (2, 3, 5, 9, 17, 33):
+    for b in (2, 3, 5, 9, 17, 33, 65, 129):
         if mx >= b:
             st["reached_%d_live" % b] = 1
     st["emptied_and_regrew"] = int(any(sizes[i] == 0 and any(x > 0 for x in sizes[:i]) and any(x > 0 for x in sizes[i:]) for i in range(len(sizes))))
